@@ -255,7 +255,22 @@ class C02(Property):
 
         if spec.get("via") == "threshold":
             lo, hi, t = spec["levels"]
-            field = ScalarField(grid, np.where(mask, hi, lo))
+            # the same binary image in one of several representations: float64 / float32 levels, a boolean field with the default
+            # or an automatic threshold, small signed integers with a negative background
+            rep = spec["bits"] % 5
+            if rep == 1:
+                field = ScalarField(grid, np.where(mask, hi, lo).astype(np.float32), dtype=np.float32)
+                t = float(np.float32(lo) + (np.float32(hi) - np.float32(lo)) / 2)
+            elif rep == 2:
+                return locate_droplets(ScalarField(grid, mask, dtype=bool), threshold=[0.5, "auto", "extrema"][spec["bits"] // 5 % 3], minimal_radius=-np.inf)
+            elif rep == 3:
+                field = ScalarField(grid, np.where(mask, 0, -1).astype(np.int8), dtype=np.int8)
+                return locate_droplets(field, threshold=[-0.5, "auto", "extrema"][spec["bits"] // 5 % 3], minimal_radius=-np.inf)
+            elif rep == 4:
+                field = ScalarField(grid, np.where(mask, 3, 1).astype(int), dtype=int)
+                return locate_droplets(field, threshold=[2, 2.5, "auto"][spec["bits"] // 5 % 3], minimal_radius=-np.inf)
+            else:
+                field = ScalarField(grid, np.where(mask, hi, lo))
             return locate_droplets(field, threshold=t, minimal_radius=-np.inf)
         return locate_droplets_in_mask(ScalarField(grid, mask, dtype=bool))
 
